@@ -6,7 +6,7 @@ STREAMS = {
     # (bin/check builds build/h-conc-race with `go build -race -tags verif`); the recorded history is
     # judged for linearizability by the Lean driver. A history is scheduling dependent, so shrinking
     # re-executes the workload: kept (cheap), the init / ev / run lines are never removed.
-    "conc": {"quick": 300, "thorough": 6000, "mode": "judge", "race": True, "timeout": 900,
+    "conc": {"quick": 500, "thorough": 30000, "mode": "judge", "race": True, "timeout": 900,
              "keep_ops": ["init", "ev", "run"], "trivial": ["bad-op", "q", "ok"]},
 }
 
